@@ -191,7 +191,7 @@ def build_frame(ctx, op, symbolic):
     if t == 'GOAWAY':
         f = hf.GoAwayFrame(0)
         f.error_code = _sv('gcode', 0, core.INT32, 0) if symbolic else 0
-        f.last_stream_id = 0
+        f.last_stream_id = _sv('glast', 0, core.INT31, 0) if symbolic else 0
         return f
     if t == 'UNKNOWN':
         f = hf.ExtensionFrame(0xFA, op[1])
